@@ -1,0 +1,76 @@
+//go:build verif
+// +build verif
+
+package txmgr
+
+import (
+	"encoding/binary"
+
+	"github.com/massnetorg/mass-core/wire"
+	mwdb "massnet.org/mass-wallet/masswallet/db"
+)
+
+// VerifPending is a read-only dump of the pending (unconfirmed) buckets, for the
+// verification harness (build tag verif only).
+type VerifPending struct {
+	Txs     []wire.Hash                   // keys of the pending-transaction bucket
+	Inputs  map[wire.OutPoint][]wire.Hash // outpoint -> pending spenders
+	Credits []wire.OutPoint               // pending credits
+	Games   int                           // entries of the pending staking/binding history
+}
+
+func (s *TxStore) VerifPending(tx mwdb.ReadTransaction) (*VerifPending, error) {
+	p := &VerifPending{Inputs: make(map[wire.OutPoint][]wire.Hash)}
+	it := tx.FetchBucket(s.bucketMeta.nsUnmined).NewIterator(nil)
+	for it.Next() {
+		var h wire.Hash
+		copy(h[:], it.Key())
+		p.Txs = append(p.Txs, h)
+	}
+	it.Release()
+	if err := it.Error(); err != nil {
+		return nil, err
+	}
+	it = tx.FetchBucket(s.bucketMeta.nsUnminedInputs).NewIterator(nil)
+	for it.Next() {
+		k := it.Key()
+		if len(k) != 36 {
+			continue
+		}
+		var op wire.OutPoint
+		copy(op.Hash[:], k[:32])
+		op.Index = binary.BigEndian.Uint32(k[32:36])
+		v := it.Value()
+		for len(v) >= 32 {
+			var h wire.Hash
+			copy(h[:], v[:32])
+			p.Inputs[op] = append(p.Inputs[op], h)
+			v = v[32:]
+		}
+	}
+	it.Release()
+	if err := it.Error(); err != nil {
+		return nil, err
+	}
+	it = tx.FetchBucket(s.bucketMeta.nsUnminedCredits).NewIterator(nil)
+	for it.Next() {
+		k := it.Key()
+		if len(k) != 36 {
+			continue
+		}
+		var op wire.OutPoint
+		copy(op.Hash[:], k[:32])
+		op.Index = binary.BigEndian.Uint32(k[32:36])
+		p.Credits = append(p.Credits, op)
+	}
+	it.Release()
+	if err := it.Error(); err != nil {
+		return nil, err
+	}
+	it = tx.FetchBucket(s.bucketMeta.nsUnminedGameHistory).NewIterator(nil)
+	for it.Next() {
+		p.Games++
+	}
+	it.Release()
+	return p, it.Error()
+}
